@@ -177,29 +177,46 @@ def run(ctx: Context) -> None:
     # ---- R18.4
     with ctx.section('R18.4'):
         pa = ctx.func(f"{TR}.prepare_data_array_for_transect")
-        mp_ = Matcher(ctx, pa)
         da = pa.params[1]
-        steps = [
-            (f"{da} = self.convention.ravel({da})", "the variable is flattened by the convention (linear index order on the last dimension)"),
-            ("$depth_dim = self.transect_dataset.coords['depth'].dims[0]", "the depth dimension is the transect's depth coordinate's"),
-            (f"$index_dim = {da}.dims[-1]", "the index dimension is the flattened (last) one"),
-            (f"{da} = move_dimensions_to_end({da}, [$depth_dim, $index_dim])", "depth then index are moved last, in that order"),
-            ("$lis = self.transect_dataset['linear_index'].values", "the linear indexes are the transect's own"),
-            (f"{da} = {da}.isel({{$index_dim: $lis}})", "cells are picked positionally (isel) along the index dimension with those indexes"),
-        ]
-        found = []
-        for pat, text in steps:
-            st = mp_.stmt(pat)
-            found.append(st)
-            ctx.check('R18.4', st is not None, text, pa, st or pa.node, construct=pat.replace('$', ''))
-        # the index dimension must be read after ravel and before the move; the move before the selection
-        order_ok = all(x is not None for x in found) and _line(found[0]) < _line(found[2]) < _line(found[3]) < _line(found[5]) \
-            and _line(found[1]) < _line(found[3]) and _line(found[4]) < _line(found[5])
-        ctx.check('R18.4', order_ok, "those steps happen in a sound order (ravel, read index dimension, move, select)", pa, pa.node,
-                  construct=f"step lines {[_line(x) for x in found]}")
-        if found[0] is not None:
-            from .common import on_cells_only
-            on_cells_only(ctx, pa, ctx.flow(pa), found[0].value, 'R18.4', "the transect pairs values with the cells its segments name", conv='self.convention')
+        pflow = ctx.flow(pa)
+        from .common import on_cells_only, spell_out
+
+        def spelled(e) -> str:
+            return norm_text(spell_out(pa, pflow.resolve(e)))
+        # read backwards from what is returned: isel(move_dimensions_to_end(ravel(data_array), [depth, index]), {index: linear indexes}),
+        # whatever the intermediate results are called
+        rets = pa.returns()
+        sel = pflow.resolve(rets[0].value) if len(rets) == 1 else None
+        ok_sel = isinstance(sel, ast.Call) and isinstance(sel.func, ast.Attribute) and sel.func.attr == 'isel' and len(sel.args) == 1 and not sel.keywords
+        indexers = pflow.resolve(sel.args[0]) if ok_sel else None
+        ok_sel = ok_sel and isinstance(indexers, ast.Dict) and len(indexers.keys) == 1 and indexers.keys[0] is not None
+        moved = pflow.resolve(sel.func.value) if ok_sel else None
+        ok_move = isinstance(moved, ast.Call) and callee(ctx, pa, moved) == 'emsarray.utils.move_dimensions_to_end' and len(moved.args) == 2 and not moved.keywords
+        order = pflow.resolve(moved.args[1]) if ok_move else None
+        ok_move = ok_move and isinstance(order, (ast.List, ast.Tuple)) and len(order.elts) == 2
+        rav = pflow.resolve(moved.args[0]) if ok_move else None
+        ok_rav = isinstance(rav, ast.Call) and isinstance(rav.func, ast.Attribute) and rav.func.attr == 'ravel' and spelled(rav.func.value) == 'self.convention' \
+            and len(rav.args) == 1 and not rav.keywords and pflow.canon(rav.args[0]) == ('param', da)
+        ctx.check('R18.4', bool(ok_rav), "the variable is flattened by the convention (linear index order on the last dimension)", pa, rav if ok_rav else pa.node,
+                  construct=f"{da} = self.convention.ravel({da})")
+        ok_depth = bool(ok_move) and spelled(order.elts[0]) == "self.transect_dataset.coords['depth'].dims[0]"
+        ctx.check('R18.4', ok_depth, "the depth dimension is the transect's depth coordinate's", pa, order.elts[0] if ok_move else pa.node,
+                  construct="depth_dim = self.transect_dataset.coords['depth'].dims[0]")
+
+        def last_of_flattened(e) -> bool:
+            v = pflow.resolve(e)
+            return (isinstance(v, ast.Subscript) and const_value(v.slice, None) == -1 and isinstance(v.value, ast.Attribute) and v.value.attr == 'dims'
+                    and pflow.resolve(v.value.value) is rav)
+        ok_index = bool(ok_move and ok_rav) and last_of_flattened(order.elts[1]) and last_of_flattened(indexers.keys[0])
+        ctx.check('R18.4', ok_index, "the index dimension is the flattened (last) one", pa, order.elts[1] if ok_move else pa.node, construct=f"index_dim = {da}.dims[-1]")
+        ctx.check('R18.4', bool(ok_move and ok_rav and ok_depth and ok_index), "depth then index are moved last, in that order", pa, moved if ok_move else pa.node,
+                  construct=f"{da} = move_dimensions_to_end({da}, [depth_dim, index_dim])")
+        ok_lis = bool(ok_sel) and spelled(indexers.values[0]) == "self.transect_dataset['linear_index'].values"
+        ctx.check('R18.4', ok_lis, "the linear indexes are the transect's own", pa, indexers.values[0] if ok_sel else pa.node, construct="lis = self.transect_dataset['linear_index'].values")
+        ctx.check('R18.4', bool(ok_sel and ok_move), "cells are picked positionally (isel) along the index dimension with those indexes, after the move", pa, sel if ok_sel else pa.node,
+                  construct=f"{da} = {da}.isel({{index_dim: lis}})")
+        if ok_rav:
+            on_cells_only(ctx, pa, pflow, rav, 'R18.4', "the transect pairs values with the cells its segments name", conv='self.convention')
         mpc = ctx.func(f"{TR}.make_poly_collection")
         comps = [n for n in ast.walk(mpc.node) if isinstance(n, ast.ListComp) and len(n.generators) == 2]
         ok = False
